@@ -2,15 +2,15 @@ SPECIFICATION Spec
 CONSTANTS
   GenesisFile = "genesis.json"
   Family = "pay"
-  MinDuration = 2
-  MaxTries = 2
-  MaxH = 7
+  MinDuration = 3600
+  MaxTries = 10
+  MaxH = 100000
   MaxOC = 3
   MaxSC = 4
-  MaxEvents = 9
-  Sizes = {400000}
-  Durs = {2, 3}
-  Timeouts = {1}
+  MaxEvents = 6
+  Sizes = {1000}
+  Durs = {3600, 7200}
+  Timeouts = {1800}
   Replicas = {1, 2}
 INVARIANT AllFormulasHold
 CONSTRAINT Bounded
